@@ -332,9 +332,9 @@ Lemma g_cltv s : pc_is p s -> good (pc_is p) (do_OP_CHECKLOCKTIMEVERIFY flags ct
 Proof.
   intros H. unfold do_OP_CHECKLOCKTIMEVERIFY.
   break_if. { break_if; [exact I|exact H]. }
-  break_if; [exact I|]. destruct (st_stack s) eqn:E; [exact I|]. break_if; [exact I|].
+  break_if; [exact I|]. destruct (st_stack s) as [|top tl] eqn:E; [exact I|]. break_if; [exact I|].
   eapply good_bind; [apply g_pop_int, H|]. intros [v s1] H1.
-  eapply good_bind; [apply g_push_int, H1|]. intros s2 H2.
+  assert (H2 : pc_is p (vm_append top s1)) by exact H1. cbv zeta.
   repeat (break_if; [exact I|]). exact H2.
 Qed.
 
@@ -342,9 +342,9 @@ Lemma g_csv s : pc_is p s -> good (pc_is p) (do_OP_CHECKSEQUENCEVERIFY flags ctx
 Proof.
   intros H. unfold do_OP_CHECKSEQUENCEVERIFY.
   break_if. { break_if; [exact I|exact H]. }
-  destruct (st_stack s) eqn:E; [exact I|]. break_if; [exact I|].
+  destruct (st_stack s) as [|top tl] eqn:E; [exact I|]. break_if; [exact I|].
   eapply good_bind; [apply g_pop_int, H|]. intros [v s1] H1.
-  eapply good_bind; [apply g_push_int, H1|]. intros s2 H2.
+  assert (H2 : pc_is p (vm_append top s1)) by exact H1. cbv zeta.
   break_if; [exact I|]. break_if; [exact H2|]. break_if; [exact I|]. break_if; [exact I|].
   eapply good_bind with (P := fun _ => True).
   { unfold check_sequence_verify. repeat break_if; exact I. }
